@@ -68,6 +68,29 @@ def model_only(cfg):
     return Model(mnames, host_fns=fns, builtin_names=None)
 
 
+def strings_too_big(names, limit=3000):
+    """Strings are not capped by the library (no property says they are): a history that keeps feeding a string into
+    replace / join / + can square its length with every call. Runs are ended before that turns into a time or memory
+    bomb for the harness (lengths up to `limit` squared are still handled by the next call)."""
+    stack = list(names.values())
+    n = 0
+    while stack and n < 5000:
+        v = stack.pop()
+        n += 1
+        if isinstance(v, str):
+            if len(v) > limit:
+                return True
+        elif isinstance(v, (list, tuple)):
+            if len(v) > limit:
+                return True         # x += x doubles a list with every call (C03's known cap bypass): same bomb
+            stack.extend(v[:200])
+        elif isinstance(v, dict):
+            if len(v) > limit:
+                return True
+            stack.extend(list(v.values())[:200])
+    return False
+
+
 def container_targets(model, depth=2, limit=4):
     """(expression tree, model object) of every container addressable from the model's host names."""
     out = []
